@@ -8,7 +8,11 @@ CFG = {
              "keys, self-closed empty containers, default layer at any position of layercontents.plist, foreign glif file names, element order inside <glyph> shuffled); "
              "oracle: load(x) vs load(save(load(x))) with the C01 comparison (numbers 1e-9 relative, colours 3 decimals, features up to CR LF, creator excepted), written metainfo "
              "says formatVersion 3, every written glif says format=\"2\" without formatMinor, for format-3 trees load(x) shows the content the tree was rendered from; at glyph level "
-             "parse_raw(x) vs parse_raw(encode(parse_raw(x))) and parse_raw(x) vs the glyph rendered. non-trivial = the input was accepted; distinct by input tokens"),
+             "parse_raw(x) vs parse_raw(encode(parse_raw(x))) and parse_raw(x) vs the glyph rendered; plus structure-aware mutations of every testdata glif (25 per file quick / 400 thorough) "
+             "and UFO (8 / 150 per tree, 1-4 files each): attribute order, quote characters, blanks inside tags, comments and blank lines between elements (also inside glyph, outline, contour, dict, array), "
+             "number spellings 5 / 5.0 / 5e0 / +5 / 5.000 in glif attributes and plist reals/integers, order of the children of <glyph>, XML declaration / BOM variants, and removal of one optional child "
+             "(a glyph child, or a key+value of a dict); the mutant must still satisfy the fixed-point oracle, and a mutant built from meaning-preserving classes only must load to the SAME value as the original file "
+             "(rules mutation-changed-value / mutation-rejected). non-trivial = the input was accepted; distinct by input tokens"),
     "exhaustive": {"quick": False, "thorough": False},
     "exhaustive_note": "all UFOs and glifs of the repository's testdata are run; the generated part is sampled",
     "timeout": {"quick": 600, "thorough": 7200},
